@@ -514,18 +514,101 @@ fn compat_queries(ctx: &mut Ctx) {
     }
 }
 
+/// "…or else a fresh unique one": an identity the socket generates never equals one that is
+/// registered already — also when a peer announces the identities the generator is about
+/// to hand out (which it can, if they are predictable from the ones already seen).
+async fn generated_identities(ctx: &mut Ctx, local: &str, case: &Value) {
+    let sock = Sock::new(local, None);
+    let pty = peer_type_for(local);
+    let mut ids: Vec<(String, Vec<u8>)> = Vec::new();
+    let mut keep = Vec::new();
+    for k in 0..2 {
+        match Peer::attach(&sock, pty, None).await {
+            Ok(p) => {
+                ids.push((format!("generated #{k}"), p.id.clone()));
+                keep.push(p);
+            }
+            Err(e) => {
+                ctx.violation_with(&format!("C04/rejected-but-must-admit/{local}-{pty}"), format!("anonymous {pty} peer: {e}"), case.clone());
+                return;
+            }
+        }
+    }
+    // the successors of what was generated so far, read as big-endian counters
+    let last = ids[1].1.clone();
+    for delta in 1..=4u32 {
+        let mut cand = last.clone();
+        let mut carry = delta;
+        for b in cand.iter_mut().rev() {
+            let v = *b as u32 + carry;
+            *b = (v & 0xFF) as u8;
+            carry = v >> 8;
+            if carry == 0 {
+                break;
+            }
+        }
+        if cand.is_empty() || cand.len() > 255 || ids.iter().any(|(_, i)| *i == cand) {
+            continue;
+        }
+        match Peer::attach(&sock, pty, Some(&cand)).await {
+            Ok(p) => {
+                if p.id != cand {
+                    ctx.violation_with("C04/identity-announced-not-used", format!("announced {} registered as {}", rc::hex(&cand), rc::hex(&p.id)), case.clone());
+                    return;
+                }
+                ids.push((format!("announced (last generated + {delta})"), p.id.clone()));
+                keep.push(p);
+            }
+            Err(e) => {
+                ctx.violation_with(&format!("C04/rejected-but-must-admit/{local}-{pty}"), format!("{pty} peer announcing a {}-byte identity: {e}", cand.len()), case.clone());
+                return;
+            }
+        }
+    }
+    for k in 2..6 {
+        match Peer::attach(&sock, pty, None).await {
+            Ok(p) => {
+                if let Some((what, _)) = ids.iter().find(|(_, i)| *i == p.id) {
+                    ctx.violation_with(
+                        "C04/generated-identity-not-unique",
+                        format!("{local}: anonymous peer #{k} was given identity {}, which is already registered ({what}); generated so far: {:?}", rc::hex(&p.id), ids.iter().map(|(w, i)| format!("{w}={}", rc::hex(i))).collect::<Vec<_>>()),
+                        case.clone(),
+                    );
+                    return;
+                }
+                ids.push((format!("generated #{k}"), p.id.clone()));
+                keep.push(p);
+            }
+            Err(e) => {
+                ctx.violation_with(&format!("C04/rejected-but-must-admit/{local}-{pty}"), format!("anonymous {pty} peer: {e}"), case.clone());
+                return;
+            }
+        }
+    }
+    ctx.add("generated_identities_checked_against_announced_successors", 6);
+}
+
 /// The same iff over the real transports, with another connection sitting silent in the
 /// middle of its own handshake: the valid peer is admitted, the incompatible one is
 /// closed and reported, whatever else is connected to the listener.
-async fn rig_admission(local: &str, transport: &str, stall_at: usize) -> Result<u64, (String, String)> {
+async fn rig_admission(local: &str, transport: &str, stall_at: usize, mon_when: &str) -> Result<u64, (String, String)> {
     use crate::rig::{self, Raw, ReadEnd, WAIT};
     use futures::StreamExt;
     use std::time::Duration;
     use zeromq::SocketEvent;
     let inc = |e: String| ("inconclusive".to_string(), e);
     let mut sock = Sock::new(local, None);
-    let mut mon = sock.monitor();
+    // the application may ask for its monitor before it binds, afterwards, or again
+    // (the newest one is the one it holds)
+    let early = if mon_when != "after" { Some(sock.monitor()) } else { None };
     let ep = sock.bind(&rig::bind_endpoint(transport)).await.map_err(inc)?;
+    let mut mon = match (mon_when, early) {
+        ("before", Some(m)) => m,
+        (_, early) => {
+            drop(early);
+            sock.monitor()
+        }
+    };
     let hs = rc::handshake(peer_type_for(local), Some(b"staller"));
     let mut staller = Raw::connect(&ep).await.map_err(|e| inc(e.to_string()))?;
     staller.write_all(&hs[..stall_at.min(hs.len() - 1)]).await.map_err(|e| inc(e.to_string()))?;
@@ -575,7 +658,7 @@ async fn rig_admission(local: &str, transport: &str, stall_at: usize) -> Result<
         if rig::canary_ok().await {
             return Err((
                 format!("C04/admission-not-reported-over-transport/{transport}"),
-                format!("{local} on {transport}: one valid and one incompatible peer connected; monitor saw {accepted} accepted, {failed} failed"),
+                format!("{local} on {transport} (monitor requested {mon_when} bind): one valid and one incompatible peer connected; the monitor the application holds saw {accepted} accepted, {failed} failed"),
             ));
         }
         return Err(inc("monitor wait expired while the canary was slow".into()));
@@ -594,12 +677,16 @@ impl Prop for C04 {
         let mut v = vec![json!({"kind": "compat"})];
         for local in ALL_TYPES {
             for transport in ["tcp4", "ipc"] {
-                for stall_at in [0usize, 10, 64, 70] {
-                    v.push(json!({"kind": "rig_admission", "local": local, "transport": transport, "stall_at": stall_at}));
+                for (k, stall_at) in [0usize, 10, 64, 70].into_iter().enumerate() {
+                    let when = ["before", "after", "replaced", "after"][k];
+                    v.push(json!({"kind": "rig_admission", "local": local, "transport": transport, "stall_at": stall_at, "monitor": when}));
                 }
             }
         }
         for local in ALL_TYPES {
+            for k in 0..4 {
+                v.push(json!({"kind": "generated_ids", "local": local, "k": k}));
+            }
             v.push(json!({"kind": "sig_sweep", "local": local, "delivery": "whole"}));
             v.push(json!({"kind": "sig_sweep", "local": local, "delivery": "byte-at-a-time"}));
         }
@@ -629,14 +716,19 @@ impl Prop for C04 {
                 let delivery = s(case, "delivery").to_string();
                 sim::run(run_point(ctx, &p, &delivery, true));
             }
+            "generated_ids" => {
+                ctx.eval(hash_str(&case.to_string()), true);
+                sim::run(generated_identities(ctx, s(case, "local"), case));
+            }
             "rig_admission" => {
                 ctx.eval(hash_str(&case.to_string()), true);
                 ctx.sample("rig_admission", || case.clone());
-                let (res, _) = crate::rig::run(2, rig_admission(s(case, "local"), s(case, "transport"), u(case, "stall_at") as usize));
+                let (res, _) = crate::rig::run(2, rig_admission(s(case, "local"), s(case, "transport"), u(case, "stall_at") as usize, case["monitor"].as_str().unwrap_or("before")));
                 match res {
                     Ok(n) => {
                         ctx.add("rig_admissions_beside_a_stalled_handshake", n);
                         ctx.count(&format!("rig_transport/{}", s(case, "transport")));
+                        ctx.count(&format!("rig_monitor_requested/{}", case["monitor"].as_str().unwrap_or("before")));
                     }
                     Err((sig, msg)) if sig == "inconclusive" => ctx.inconclusive(format!("C04 rig: {msg}")),
                     Err((sig, msg)) => ctx.violation_with(&sig, msg, case.clone()),
@@ -711,6 +803,7 @@ impl Prop for C04 {
             ("rejected_follow_up", 5_000),
             ("rejected/signature", 1000),
             ("signature_byte_values_swept", 9000),
+            ("generated_identities_checked_against_announced_successors", 100),
             ("rig_admissions_beside_a_stalled_handshake", 60),
             ("rejected/version", 1000),
             ("rejected/mechanism", 1000),
